@@ -86,6 +86,7 @@ struct Task {
     int state = 0;                      // 0 pending, 1 in flight, 2 done
     int worker = -1;
     int unfinishedChildren = 0;
+    int waiting = 0;                    // dependency slots whose access group is not yet the current one
     uint64_t labelHash = 0;             // derived from dependency names, never from raw addresses
     std::vector<uint64_t> pred;         // happens-before predecessors (bitset over earlier ids)
     std::vector<uint64_t> mutex;        // tasks sharing a commutative group with this one
@@ -141,6 +142,9 @@ public:
     int rrNext = 0;
     bool scribbled = false;
     long unfinished = 0;
+    std::vector<int> readyVec;          // pending tasks with waiting == 0, ascending id (commutative exclusion is checked at pick time)
+    bool hasCommutative = false;
+    size_t firstPending = 0;
     int creatorDepthMarker = 0;         // bumped by the harness hooks when creator frames return (informational)
 
     // --- logs ---
@@ -177,6 +181,8 @@ public:
 
 private:
     bool ready(const Task& t) const;
+    bool blockedByMutex(const Task& t) const;
+    void makeReady(int id);
     void runTask(int id, int workerIndex, int kind);
     int  chooseTask(const std::vector<int>& readySet);
     int  chooseWorker(const std::vector<int>& idle);
